@@ -367,6 +367,26 @@ def s_is_some(ip, st, fr, name, args, c, site):
     return one(T.mk_cmp('eq', d, I(want)))
 
 
+@S('std::option::Option::<T>::zip')
+def s_option_zip(ip, st, fr, name, args, c, site):
+    # Some((x, y)) when both are Some, None otherwise: decided per operand (a concrete alternative or the discriminant)
+    def side(v, k):
+        if isinstance(v, X.Adt):
+            return (T.TRUE if v.variant == 'Some' else T.FALSE), (lambda ip, s2, a2: a2[k].xs[0])
+        if isinstance(v, X.Sym):
+            return T.mk_cmp('eq', ip.discr(st, v), I(1)), (lambda ip, s2, a2: opt_payload(ip, s2, a2[k], 'Some', 1, 0))
+        raise X.Unanalysable('zip of %r' % (v,), site)
+    ca, pa = side(args[0], 0)
+    cb, pb = side(args[1], 1)
+    both = T.mk_and(ca, cb)
+    alts = []
+    if both != T.FALSE:
+        alts.append(([both] if both != T.TRUE else [], lambda ip, s2, f2, a2: some(X.Tup([pa(ip, s2, a2), pb(ip, s2, a2)]))))
+    if both != T.TRUE:
+        alts.append(([T.mk_not(both)] if both != T.FALSE else [], lambda ip, s2, f2, a2: none()))
+    return alts
+
+
 @S('std::option::Option::<T>::unwrap_or')
 def s_unwrap_or(ip, st, fr, name, args, c, site):
     v = args[0]
